@@ -395,7 +395,14 @@ func (g *storageGen) next() (sdk.Msg, map[string]interface{}, func(pre, post stS
 			forAddr = sdk.AccAddress([]byte(fmt.Sprintf("fresh-beneficiary-%03d", r.Intn(1000)))).String()
 		}
 		if r.Intn(25) == 0 { // a module account as beneficiary (block processing fetches these as module accounts)
-			forAddr = c.ModuleAddr([]string{"fee_collector", "distribution", minttypes.ModuleName, sttypes.ModuleName, "bonded_tokens_pool"}[r.Intn(5)])
+			ma := c.ModuleAddr([]string{"fee_collector", "distribution", minttypes.ModuleName, sttypes.ModuleName, "bonded_tokens_pool"}[r.Intn(5)])
+			// only module accounts that already exist: BuyStorage creates a plain account at an unseen
+			// beneficiary address, and for the storage module's own, not yet created address the purchase
+			// then fails on its first transfer ("account is not a module account") — a quirk of the
+			// unchanged code that is outside the model (DESIGN.md section 8)
+			if a, err := sdk.AccAddressFromBech32(ma); err == nil && c.A.AccountKeeper.HasAccount(c.Ctx(), a) {
+				forAddr = ma
+			}
 		}
 		days := []int64{30, 30, 31, 60, 365, 366, 400, 1000, 29, 1, 0, -5, 106752, 1 << 40}[r.Intn(14)]
 		if r.Intn(3) > 0 {
